@@ -449,6 +449,104 @@ def slow_group_threads(ctx, n_threads, src):
         shutil.rmtree(d, ignore_errors=True)
 
 
+def evaluation_interleaving(ctx, stage, src):
+    """the evaluation itself runs outside the aggregator's locks: two threads whose evaluations overlap *inside* the
+    evaluator (thread A is held at a stage boundary while thread B evaluates its whole subject) must still record the rows a
+    sequential run records.  Unmatched-instance input with a matcher; the two subjects need different assignments."""
+    import threading
+    import panoptica.instance_matcher as IM
+    inp = {"mode": "evaluation-interleaving", "held_at": stage, "src": src}
+    d = workdir("c16inner")
+    ctx.case(inp, True, sample=inp)
+    ctx.count("threads_overlapping_inside_the_evaluator")
+    impl.serial_pool(True)
+
+    def scene(k):
+        ref = np.zeros((6, 14), np.uint8)
+        pred = np.zeros((6, 14), np.uint8)
+        ref[1:5, 1:5], ref[1:5, 8:12] = 1, 2
+        if k == 0:          # labels crossed: prediction 2 sits on reference 1, prediction 1 on reference 2; one stray prediction
+            pred[1:5, 1:6], pred[1:5, 8:11], pred[0, 13] = 2, 1, 3
+        else:               # labels aligned, other overlaps
+            pred[1:4, 1:5], pred[2:5, 8:12] = 1, 2
+        return pred, ref
+
+    def mk():
+        with quiet():
+            return impl.Panoptica_Evaluator(expected_input=impl.InputType.UNMATCHED_INSTANCE, instance_matcher=impl.NaiveThresholdMatching(matching_threshold=0.3),
+                                            instance_metrics=[impl.Metric.IOU, impl.Metric.DSC], global_metrics=[impl.Metric.DSC])
+    names = ["sub_a", "sub_b"]
+    try:
+        # sequential reference rows, each on a fresh aggregator with locks of its own
+        want = {}
+        saved = PA.filelock, PA.inevalfilelock
+        for k, nm in enumerate(names):
+            PA.filelock, PA.inevalfilelock = threading.Lock(), threading.Lock()
+            try:
+                with quiet():
+                    agg = PA.Panoptica_Aggregator(mk(), os.path.join(d, f"ref{k}.tsv"))
+                    agg.evaluate(*scene(k), nm)
+                with builtins.open(os.path.join(d, f"ref{k}.tsv"), newline="") as f:
+                    want[nm] = list(csv.reader(f, delimiter="\t"))[1]
+            finally:
+                PA.filelock, PA.inevalfilelock = saved
+        with quiet():
+            agg = PA.Panoptica_Aggregator(mk(), os.path.join(d, "out.tsv"))
+        a_waiting, b_done = threading.Event(), threading.Event()
+        target = {"map": "map_instance_labels", "match": "_calc_matching_metric_of_overlapping_labels"}[stage]
+        mod = IM
+        real = getattr(mod, target)
+        a_tid = {}
+
+        def gate(*a, **k):
+            if threading.get_ident() == a_tid.get("id") and not a_waiting.is_set():
+                a_waiting.set()
+                b_done.wait(30)
+            return real(*a, **k)
+        setattr(mod, target, gate)
+        errs = {}
+
+        def run_a():
+            a_tid["id"] = threading.get_ident()
+            try:
+                agg.evaluate(*scene(0), names[0])
+            except BaseException as e:      # noqa
+                errs[names[0]] = f"{type(e).__name__}: {str(e)[:80]}"
+
+        def run_b():
+            a_waiting.wait(30)
+            try:
+                agg.evaluate(*scene(1), names[1])
+            except BaseException as e:      # noqa
+                errs[names[1]] = f"{type(e).__name__}: {str(e)[:80]}"
+            finally:
+                b_done.set()
+        try:
+            with quiet():
+                ta, tb = threading.Thread(target=run_a), threading.Thread(target=run_b)
+                ta.start(); tb.start()
+                ta.join(90); tb.join(90)
+        finally:
+            setattr(mod, target, real)
+        with builtins.open(os.path.join(d, "out.tsv"), newline="") as f:
+            rows = {r[0]: r for r in list(csv.reader(f, delimiter="\t"))[1:]}
+        if errs or ta.is_alive() or tb.is_alive():
+            ctx.violation(f"C16 violated: evaluations overlapping inside the evaluator (thread A held at {target}): calls failed or blocked: {errs}", inp,
+                          impl={"errors": errs}, key={"kind": "inner-interleaving"})
+        elif sorted(rows) != sorted(names):
+            ctx.violation(f"C16 violated: rows for {sorted(rows)}, expected one per subject {names}", inp, key={"kind": "inner-interleaving"})
+        else:
+            for nm in names:
+                if rows[nm] != want[nm]:
+                    diff = [(i, x, y) for i, (x, y) in enumerate(zip(rows[nm], want[nm])) if x != y][:3]
+                    ctx.violation(f"C16 violated: the row of {nm} differs from a sequential run when another thread's evaluation runs while it is between "
+                                  f"matching and relabelling (held at {target}): first differing cells (index, concurrent, sequential) {diff}", inp,
+                                  impl={"row": rows[nm], "sequential": want[nm]}, key={"kind": "inner-interleaving"})
+                    break
+    finally:
+        shutil.rmtree(d, ignore_errors=True)
+
+
 POOL_NAMES = ["s1", "s2", "s 3", "s-4", "s1 ", " s2", "S1", "\ufeffs1", "\u00e9 1", 's"1', "s1\ufeff", "\u3000s2"]
 
 
@@ -496,6 +594,8 @@ def run(ctx):
             one_schedule(ctx, [first, first, first.strip("\ufeff\u3000")], ["eval", "eval", "eval"], list(sched), "corpus.lookalike-names")
     for i in range(ctx.scale(250, 4000)):
         rand_case(ctx, "rand", i)
+    for stage in ("map", "match"):
+        evaluation_interleaving(ctx, stage, f"inner.{stage}")
     for k in range(ctx.scale(1, 6)):
         pool_run(ctx, 6, 3, f"pool{k}")
     for k in range(ctx.scale(1, 4)):
@@ -517,6 +617,9 @@ def replay(ctx, rec):
     i = rec["input"]
     if str(i.get("mode", "")).startswith("child interpreter with LC_ALL=C"):
         locale_case(ctx, "replay")
+        return
+    if i.get("mode") == "evaluation-interleaving":
+        evaluation_interleaving(ctx, i.get("held_at", "map"), "replay")
         return
     if i.get("mode") == "threads+slow-groups":
         for k in range(5):
